@@ -12,6 +12,14 @@ DEPS = os.path.join(VERIF, '.deps')
 EPOCH = 1700000000.0          # realistic wall-clock base for time.time()
 
 _ready = False
+MONO_OFFSET = [0.0]
+
+
+def real_monotonic():
+    import time
+    return getattr(time, '_real_monotonic', time.monotonic)()
+
+
 CLOCK_OFFSET = [0.0]       # added to the virtual clock: lets a harness keep wall time monotonic across agent restarts
 
 
@@ -49,4 +57,8 @@ def patch_clock():
         return
     time._real_time = time.time
     time.time = lambda: EPOCH + CLOCK_OFFSET[0] + reactor.seconds()
+    # the monotonic clock of the agent is virtual too: seconds since 'boot' (MONO_OFFSET moves the boot), small numbers that
+    # cross powers of ten.  The harness itself keeps the real one (real_monotonic) for its time boxes.
+    time._real_monotonic = time.monotonic
+    time.monotonic = lambda: 7.5 + MONO_OFFSET[0] + reactor.seconds()
     time._verif_patched = True
